@@ -142,16 +142,20 @@ class SigmaDetectionItem(ProcessingItemTrackingMixin, ParentChainMixin):
             val_list = val
 
         # Map Python types to Sigma typing classes
-        sigma_val = [
-            (
-                SigmaString.from_str(
-                    cast("str", v),
-                )  # The string type is ensured previously by the 're' modifier.
-                if SigmaRegularExpressionModifier in modifiers
-                else sigma_type(v)
-            )
-            for v in val_list
-        ]
+        if SigmaRegularExpressionModifier in modifiers:
+            # Regular expressions are parsed as raw strings. YAML numbers are taken by their text,
+            # other types can't be a regular expression.
+            for v in val_list:
+                if isinstance(v, bool) or not isinstance(v, (str, int, float)):
+                    raise sigma_exceptions.SigmaTypeError(
+                        f"Regular expression must be a string, not {type(v).__name__}",
+                        source=source,
+                    )
+            sigma_val: list[SigmaType] = [
+                SigmaString.from_str(v if isinstance(v, str) else str(v)) for v in val_list
+            ]
+        else:
+            sigma_val = [sigma_type(v) for v in val_list]
 
         return cls(field, modifiers, sigma_val, source=source)
 
